@@ -63,6 +63,26 @@ theorem C16_sentence_unchanged (tb line : Bytes) (htb : BACKSLASH ∉ tb) (htb0 
        | .error e => .error e) :=
   produce_tagblock K tb line htb htb0 hline hne
 
+/-- leading blanks / line terminators are stripped before anything else is looked at -/
+theorem strip_prepend_space (t s : Bytes) (ht : t.all isSpace = true) : strip (t ++ s) = strip s := by
+  unfold strip lstrip
+  rw [List.dropWhile_append]
+  have : t.dropWhile isSpace = [] := dropWhile_eq_nil_of_all isSpace t ht
+  simp [this]
+
+/-- **Whitespace around a (tag-blocked) line does not matter**: the factory strips the line first,
+so a tag block is found and taken off whether or not blanks or line terminators surround the line. -/
+theorem C16_surrounding_whitespace (lead line trail : Bytes) (hl : lead.all isSpace = true)
+    (ht : trail.all isSpace = true) (hne : line ≠ []) :
+    produce K (lead ++ line ++ trail) = produce K line := by
+  rw [produce_trailer K (lead ++ line) trail ht]
+  have hpp := preProcess_congr (lead ++ line) line (strip_prepend_space lead line hl)
+  have e1 : (lead ++ line).isEmpty = false := by
+    cases lead <;> cases line <;> simp_all
+  have e2 : line.isEmpty = false := by cases line <;> simp_all
+  unfold produce
+  rw [hpp, e1, e2]
+
 /-- non-vacuity: the documented example `TagBlock.create(source_station="STATION1", text="Hello")`,
 a one-digit checksum, and a value containing `:` -/
 example :
@@ -78,4 +98,6 @@ example :
 #print axioms C16_valid_iff
 #print axioms C16_unknown_ignored
 #print axioms C16_sentence_unchanged
+#print axioms strip_prepend_space
+#print axioms C16_surrounding_whitespace
 end C16
